@@ -21,7 +21,7 @@ RULE = (
     "expression tree. layout: two nested levels (each reverse or forward) through ravel / reshape / flatten with order 'A' / 'K' of a "
     "C-, Fortran- or transposed-storage array that depends on the variables of both levels, against the closed form."
     ' nested_nary: one operation on three operands of different levels; vector3: three levels around a matrix product, the innermost differentiation closing over both enclosing levels, the outer-level operand optionally passed through array-method identities and the product optionally checkpointed.'
-    ' mixed_kind: two levels whose variables differ in kind (real outer / complex inner or the reverse) joined by a matrix or elementwise product; closed-form inner gradient, central differences of it for the outer derivative, and the kind of the result.'
+    ' fixed_point_nested: depth 2-3 reverse-mode nesting through autograd.misc.fixed_points.fixed_point, levels differentiating the parameter or a closed-over variable in a drawn order, against the closed-form solution. mixed_kind: two levels whose variables differ in kind (real outer / complex inner or the reverse) joined by a matrix or elementwise product; closed-form inner gradient, central differences of it for the outer derivative, and the kind of the result.'
 )
 
 MODES = ["grad", "deriv", "jac", "vjp", "jvp", "egrad", "vag", "hvp_like"]
@@ -546,6 +546,91 @@ def layout_body(c):
     return ok(nontrivial=bool(isf), key=json.dumps(sample), labels=["layout=" + layout, "how=" + how, f"modes={outer_mode}/{inner_mode}"], sample=sample)
 
 
+def fixed_point_nested_body(c):
+    """Nested reverse-mode differentiation through autograd.misc.fixed_points.fixed_point (a primitive whose VJP solves an adjoint fixed point and
+    must keep every dependence traceable): F(a, b) = w . x*, x* = a tanh(M x*) + tanh(b a v); each level differentiates one of (a, b) in a drawn order of
+    depth 2-3, inner levels closing over the outer variables.  Oracle: the same contraction iterated to convergence in NumPy, mixed partials by Richardson-
+    extrapolated central differences."""
+    import autograd
+    import autograd.numpy as anp
+    from autograd.misc.fixed_points import fixed_point
+
+    from .. import values
+    from ..case import describe_exc, from_autograd
+
+    n = c.int(1, 3)
+    vseed = c.seed()
+    (M0, v, w), _ = values.generic(vseed, [(n, n), (n,), (n,)], -1.0, 1.0)
+    M = 0.4 * M0 / max(1.0, float(onp.max(onp.abs(onp.linalg.eigvals(M0)))))
+    a0, b0 = c.choice([0.5, 0.8, 1.1]), c.choice([0.6, 0.9, 1.3])
+    depth = c.int(2, 3)
+    wrt = [c.choice("ab") for _ in range(depth)]  # innermost first
+    if c.chance(1, 2):
+        wrt = sorted(wrt)  # half of the cases: the a-levels inside the b-levels (with `a` as the parameter this is the arrangement the tree gets right)
+    sample = {"n": n, "a": a0, "b": b0, "wrt_innermost_first": wrt, "vseed": vseed}
+    c.features.update(depth=depth, wrt="".join(wrt), mixed=len(set(wrt)) > 1)
+
+    def closed(a, b):
+        # the reference solves the same contraction (factor <= 0.44) by plain iteration in NumPy, far below the differencing error
+        x = onp.zeros(n)
+        for _ in range(200):
+            x = a * onp.tanh(M @ x) + onp.tanh(b * a * v)
+        return float(w @ x)
+
+    dist = lambda x, y: float(onp.max(onp.abs(onp.asarray(autograd.tracer.getval(x)) - onp.asarray(autograd.tracer.getval(y)))))
+
+    def F(a, b):
+        # the map closes over b; a is the parameter handed to fixed_point
+        return anp.dot(w, fixed_point(lambda a_: (lambda x: a_ * anp.tanh(anp.dot(M, x)) + anp.tanh(b * a_ * v)), a, onp.zeros(n), dist, 1e-14))
+
+    def F2(a, b):
+        # ... and the other way round: b is the parameter, a is closed over
+        return anp.dot(w, fixed_point(lambda b_: (lambda x: a * anp.tanh(anp.dot(M, x)) + anp.tanh(b_ * a * v)), b, onp.zeros(n), dist, 1e-14))
+
+    which = c.choice(["a_param", "b_param"])
+    sample["param"] = which
+    Fn = F if which == "a_param" else F2
+    # known finding (fixed-point-map-closes-over-traced-value): the map handed to fixed_point closes over a variable that some level differentiates
+    # while another level differentiates the explicit parameter.  Not covered by it: F with the closed-over variable differentiated at OUTER levels only
+    # (there the closed-over variable does not enter the derivative of the map with respect to x, and the tree is right)
+    P, Q = ("a", "b") if which == "a_param" else ("b", "a")
+    mixed = P in wrt and Q in wrt
+    outer_only = mixed and max(i for i, nm in enumerate(wrt) if nm == P) < min(i for i, nm in enumerate(wrt) if nm == Q)
+    c.features.update(param=which, closure_case=bool(mixed and not (which == "a_param" and outer_only)))
+
+    def build(k, env):
+        """derivative operator stack: level k differentiates wrt[k]; env holds the current values of a and b (possibly traced)"""
+        if k < 0:
+            return Fn(env["a"], env["b"])
+        name = wrt[k]
+        return autograd.grad(lambda t: build(k - 1, dict(env, **{name: t})))(env[name])
+
+    def num(f, pt, names):
+        if not names:
+            return f(pt["a"], pt["b"])
+        nm, rest = names[0], names[1:]
+        h = 2e-2 if len(names) == 1 else 4e-2
+        d = lambda hh: (num(f, dict(pt, **{nm: pt[nm] + hh}), rest) - num(f, dict(pt, **{nm: pt[nm] - hh}), rest)) / (2 * hh)
+        return (4 * d(h / 2) - d(h)) / 3
+
+    want = num(closed, {"a": a0, "b": b0}, list(wrt))
+    try:
+        got = build(depth - 1, {"a": a0, "b": b0})
+        from autograd.tracer import isbox
+
+        if isbox(got):
+            return fail("tracer_leak", f"the nested derivative {wrt} through fixed_point comes back as a tracer", "C08|fixed_point_nested|leak", sample=sample)
+        got = float(got)
+    except Exception as e:
+        if not from_autograd(e):
+            raise
+        return fail("unexpected_exception", describe_exc(e), "C08|fixed_point_nested|exception", sample=sample)
+    tol = {2: 2e-5, 3: 3e-3}[depth] * max(1.0, abs(want))
+    if not abs(got - want) <= tol:
+        return fail("wrong_value", f"d^{depth} F / d{' d'.join(reversed(wrt))} through fixed_point: autograd {got!r}, closed form {want!r}", f"C08|fixed_point_nested|depth{depth}", sample=sample)
+    return ok(nontrivial=True, key=json.dumps([n, a0, b0, wrt, which]), labels=["fixed_point_nested", f"depth={depth}", "param=" + which], sample=sample)
+
+
 def mixed_kind_body(c):
     """Two levels whose variables are of different kinds: the OUTER variable A is real, the INNER one B complex (or the other way round), joined by
     a product (dot / matmul / @ / einsum / tensordot / elementwise).  With P = prod(A, B): g(A, B) = Re sum(C * P) (form lin) or Re sum(C * P * P)
@@ -669,6 +754,7 @@ PROP = Prop("C08", [
     Test("vector3", vector3_body, quick=800, thorough=6000, shard_size=100),
     Test("layout", layout_body, quick=600, thorough=4000, shard_size=100),
     Test("mixed_kind", mixed_kind_body, quick=600, thorough=4000, shard_size=100),
+    Test("fixed_point_nested", fixed_point_nested_body, quick=240, thorough=2000, shard_size=30),
 ], RULE, assumptions=[
     "reference symbolic differentiator (vh/refs/symbolic.py) is correct; it shares no code with autograd",
     "scalar expression programs plus one family of vector-valued nestings; nesting depth <= 4-5",
